@@ -8,7 +8,8 @@ HARNESS = "c13"
 N = {"quick": 150, "thorough": 3000}
 CORRESPONDENCES = ["BVH answer per ray on sets of boxes (sizes 0..200, duplicates, coinciding centres, flat boxes; leaf sizes 1,2,8,30)",
                    "ray-polygon hit/miss and hit parameter (star-shaped polygons with 3..12 corners, random poses)",
-                   "global corners of the reveal surfaces of a set-back window (shades_for_setback) = Place.reveals on the wall pose as (cos, sin) pairs"]
+                   "global corners of the reveal surfaces of a set-back window (shades_for_setback) = Place.reveals on the wall pose as (cos, sin) pairs",
+                   "WallGeom::aabb = aabbOfPoints of the polygon's global corners (exactly: minima and maxima of the same numbers)"]
 # the model's polygon test is proved to be the even-odd rule in exact arithmetic (pip_eq_evenodd, ray_hit_iff):
 # a disagreement outside the exclusion zone is a failing input of the property itself
 SPEC_FAMILIES = (CORRESPONDENCES[1],)
@@ -56,6 +57,11 @@ def compare(case, out):
     if op == "raypoly":
         if "hits" not in out:
             return [(CORRESPONDENCES[1], f"model gave {str(out)[:200]}")]
+        bb = out.get("aabb")
+        if bb is not None and case["impl"].get("corners"):
+            _stats["polygon_boxes_compared"] += 1
+            if any(abs(a - b) > 1e-6 * max(1.0, abs(b)) for a, b in zip(case["impl"]["aabb"], bb)):
+                res.append((CORRESPONDENCES[3], f"bounding box {case['impl']['aabb']}, box of the corners {bb}"))
         for i, (h, mh, cr) in enumerate(zip(case["impl"]["hits"], out["hits"], out["crossing"])):
             _stats["poly_rays"] += 1
             near = cr is None or cr["d2"] is None or cr["d2"] < 1e-6 or abs(cr["t"]) < 1e-3 or abs(abs(cr["denom"]) - 1e-5) < 5e-6
@@ -74,11 +80,11 @@ def compare(case, out):
         want = out.get("reveals", [])
         _stats["reveal_models_compared"] += 1
         if len(got) != len(want):
-            return [(CORRESPONDENCES[-1], f"{len(got)} reveal surfaces generated, the model of shades_for_setback gives {len(want)}")]
+            return [(CORRESPONDENCES[2], f"{len(got)} reveal surfaces generated, the model of shades_for_setback gives {len(want)}")]
         for k, (g, w) in enumerate(zip(got, want)):
             d = max(min(math.dist(p, q) for q in w) for p in g) if g and w else 1.0
             if d > 2e-3:
-                return [(CORRESPONDENCES[-1], f"reveal {k}: a corner of the generated surface is {d:.4f} m from the model's ({[round(c, 3) for c in g[0]]} vs {[round(c, 3) for c in w[0]]})")]
+                return [(CORRESPONDENCES[2], f"reveal {k}: a corner of the generated surface is {d:.4f} m from the model's ({[round(c, 3) for c in g[0]]} vs {[round(c, 3) for c in w[0]]})")]
         return []
     return res
 
